@@ -656,6 +656,22 @@ func c12RunCase(x *h.Ctx, c c12Case) {
 			}
 		}
 	}
+	// Array envelope with a second presentation: Validate tries the presentations in order and takes the first one whose
+	// credentials fulfil the definition. When the builder's presentation fails with the documented ErrUnsupportedFilter
+	// (the verifier evaluates every descriptor against every presented credential, the wallet stopped at its first match),
+	// that error is swallowed and the other presentation decides the expectation. That outcome belongs to the documented
+	// error, it is not demanded that the builder's mapping wins then.
+	if validateMayErr && strings.HasSuffix(c.Env, "-array") && c.Extra != 0 {
+		blockedByEarlierVP = true
+		x.Class("O4-O5-not-demanded:documented-error-hands-over-to-other-presentation")
+	}
+	// every credential that is somewhere in the envelope
+	presented := map[int]bool{}
+	for ci := range built {
+		if distinct[canon[ci]] || (strings.HasSuffix(c.Env, "-array") && c.Extra != 0) {
+			presented[ci] = true
+		}
+	}
 	descHits := map[string]int{}
 	for ci := range distinct {
 		n := 0
@@ -852,8 +868,8 @@ func c12RunCase(x *h.Ctx, c c12Case) {
 			}
 			which := -1
 			for ci := range built {
-				if distinct[ci] && c12SameCredential(val, built[ci]) {
-					which = ci
+				if presented[ci] && c12SameCredential(val, built[ci]) && (which < 0 || !distinct[which]) {
+					which = canon[ci]
 				}
 			}
 			if which < 0 {
